@@ -373,11 +373,10 @@ def run(m):
 '''
 
 
-@structural("C05", "implicit-environments-are-keyed-on-autoescape")
-def implicit_env_keyed_on_autoescape():
-    """`Template(source, autoescape=True)` must not be served an environment created for
-    autoescape=False: the memo of get_implicit_environment covers every parameter (functools
-    cache over the keyword arguments), autoescape included, and passes it on"""
+def implicit_env_param_obligation(param, replay_code):
+    """the memo of get_implicit_environment covers `param` (functools cache over every keyword
+    argument, or a hand-written key that names it), `param` is passed on to Environment(...), and
+    Template() sets no attribute on the (shared) environment it gets back"""
     import ast
     from pyvc import flow, load
     mod = load.get_module("liquid.environment")
@@ -386,10 +385,19 @@ def implicit_env_keyed_on_autoescape():
     decos = [ast.unparse(d) for d in fn.decorator_list]
     cached_on_all = any(d.startswith(("lru_cache", "functools.lru_cache", "cache", "functools.cache")) for d in decos)
     calls = [c_ for c_ in flow.calls(fn) if flow.dotted(c_.func) == "Environment"]
-    forwarded = bool(calls) and all(flow.kwarg(c_, "autoescape") is not None and flow.dotted(flow.kwarg(c_, "autoescape")) == "autoescape" for c_ in calls)
+    forwarded = bool(calls) and all(flow.kwarg(c_, param) is not None and flow.dotted(flow.kwarg(c_, param)) == param for c_ in calls)
     hand_keys = [ast.unparse(st_.value) for st_ in ast.walk(fn) if isinstance(st_, ast.Assign) and any(flow.dotted(t) == "key" for t in st_.targets)]
-    keyed = cached_on_all or any("autoescape" in k for k in hand_keys)
-    return [flow.ob("get_implicit_environment:autoescape-is-a-parameter-part-of-the-memo-key-and-forwarded", "autoescape" in params and keyed and forwarded, f"decorators={decos}; hand-written keys={[k[:80] for k in hand_keys]}; forwarded={forwarded}", replay_schema="code", replay_extra={"code": REPLAY_TEMPLATE_AUTOESCAPE})]
+    keyed = cached_on_all or any(param in k for k in hand_keys)
+    tfn = mod.funcs.get("Template")
+    sets = [ast.unparse(st_)[:60] for st_ in ast.walk(tfn) if isinstance(st_, (ast.Assign, ast.AugAssign)) and any(isinstance(t, ast.Attribute) and flow.dotted(t.value) == "env" for t in (st_.targets if isinstance(st_, ast.Assign) else [st_.target]))] if tfn is not None else []
+    return [flow.ob(f"get_implicit_environment:{param}-is-a-parameter-part-of-the-memo-key-and-forwarded", param in params and keyed and forwarded and not sets, f"decorators={decos}; hand-written keys={[k[:80] for k in hand_keys]}; forwarded={forwarded}; Template() sets {sets}", replay_schema="code", replay_extra={"code": replay_code})]
+
+
+@structural("C05", "implicit-environments-are-keyed-on-autoescape")
+def implicit_env_keyed_on_autoescape():
+    """`Template(source, autoescape=True)` must not be served an environment created for
+    autoescape=False"""
+    return implicit_env_param_obligation("autoescape", REPLAY_TEMPLATE_AUTOESCAPE)
 
 
 REPLAY_TEMPLATE_AUTOESCAPE = r'''
